@@ -92,4 +92,10 @@ NOTES['C05'] = {'technique': 'Lean 4 proof (a node is accounted for exactly whil
             'CONC-policy: table vs deques vs counters vs Coldest/All at real quiescent points; SEQ: WeightedSize, EstimatedSize, Hottest/Coldest = All against Spec, incl. deferred executor with keys rewritten before maintenance (K1).',
     'note': _POL_NOTE}
 
+NOTES['C17'] = {'technique': 'Lean 4 proof (ring capacity/refusal/slot arithmetic over an atomic-step transcription) + skeleton equality + sequential differential + concurrent delivery-log judge',
+    'engine': 'proof+gen-skeleton+unit-ring+conc-ring+seq',
+    'text': 'Theorems for every ring state: capacity 16 never exceeded; Full exactly at 16 buffered; the indices held at once occupy distinct slots; recording never moves the head; a refused entry changes nothing. Skeletons of ring.add, ring.drainTo, Striped.Add, expandOrRetry, DrainTo equal the snapshot. '
+            'Tie: UNIT-ring exact; CONC-ring (real recorders vs draining consumer, stripe creation/expansion under contention): no invention, at most once, capacity, delivery at quiescence; independence of results: SEQ is exact against a Spec without any read buffer.',
+    'note': 'Trusted: Lean kernel; skeleton extractor; Go scheduler for CONC-ring. PARTIAL: the concurrent invariant (all interleavings of recorders with the consumer, striped table expansion) is not mechanised; sync.Pool token reuse is runtime behaviour.'}
+
 NOT_APPLICABLE = {}
